@@ -68,7 +68,7 @@ func NewMethodEvaluator(
 
 	if ctx.IsCheckRound() {
 		key := evaluatedObjectT.GetFrame() + evaluatedObjectT.GetObjectClass() + methodIdentifierT.ToString()
-		point := p.FileName + ":" + strconv.Itoa(p.Row)
+		point := p.FileName + ":" + strconv.Itoa(p.ErrorRow)
 
 		callPoint :=
 			base.CallPoint{
